@@ -470,10 +470,12 @@ def run_sequence(world, ops, validate=True):
     tr = Tracker()
     prev = observe(world)
     steps, obs_terms = [], []
-    for op in ops:
+    for i, op in enumerate(ops):
         rc, detail = world.apply(op)
         cur = observe(world)
-        msgs = oracle(op, rc, prev, cur, tr, world, validate=validate)
+        # long runs (width maxima): full validation of the growing object every 10th step and at the end
+        val = validate and (len(ops) <= 60 or i % 10 == 0 or i >= len(ops) - 8)
+        msgs = oracle(op, rc, prev, cur, tr, world, validate=val)
         tr.update(prev, cur)
         obs_terms.append(coq_obs(rc, cur, tr))
         steps.append({"op": list(op), "rc": rc, "detail": detail, "problems": msgs, "view": abstract_view(cur, tr)})
